@@ -11,6 +11,7 @@ import (
 	"sort"
 
 	"github.com/TarsCloud/TarsGo/tars/protocol/codec"
+	"github.com/TarsCloud/TarsGo/tars/protocol/tup"
 	"pgregory.net/rapid"
 
 	rc "verif/harness/refcodec"
@@ -26,7 +27,14 @@ type Codec interface {
 	ResetDefault()
 }
 
+// Custom adapts a hand-written decoder (e.g. tup.UniAttribute) to the struct-oriented
+// checks: it decodes bytes into a generic value of the virtual struct it is registered for.
+type Custom struct {
+	Decode func(b []byte) (*rc.SV, error)
+}
+
 type Registry struct {
+	Custom map[string]*Custom
 	Name   string
 	Schema *rc.Schema
 	New    map[string]func() any
@@ -40,6 +48,9 @@ func Load(name, schemaJSON string, newFns map[string]func() any) (*Registry, err
 	}
 	r := &Registry{Name: name, Schema: s, New: newFns}
 	for k := range s.Structs {
+		if k == TupKey {
+			continue
+		}
 		if _, ok := newFns[k]; !ok {
 			return nil, fmt.Errorf("registry has no constructor for %s", k)
 		}
@@ -97,6 +108,9 @@ func (r *Registry) encodeImpl(key string, sv *rc.SV, nilEmpty bool) ([]byte, err
 
 // decodeImpl: bytes -> fresh generated struct via ReadFrom -> value.
 func (r *Registry) decodeImpl(key string, b []byte) (*rc.SV, error) {
+	if cu := r.Custom[key]; cu != nil {
+		return cu.Decode(b)
+	}
 	c, v, err := r.newCodec(key)
 	if err != nil {
 		return nil, err
@@ -149,4 +163,39 @@ func (r *Registry) value(c ValueCase) (*rc.SV, *stat.Failure) {
 
 func show(sv *rc.SV) any {
 	return rc.ToJSONish(&rc.Type{Kind: rc.KStruct, Struct: sv.St}, sv)
+}
+
+// TupKey is the virtual struct standing for tup.UniAttribute's wire form:
+// struct { 0 require map<string, vector<byte>> data; }.
+const TupKey = "tup.UniAttribute"
+
+// AddTup registers tup.UniAttribute.Decode as a custom decoder under TupKey.
+func (r *Registry) AddTup() {
+	bytesT := &rc.Type{Kind: rc.KVector, Elem: &rc.Type{Kind: rc.KI8}}
+	mt := &rc.Type{Kind: rc.KMap, Key: &rc.Type{Kind: rc.KString}, Elem: bytesT}
+	st := &rc.Struct{Module: "tup", Name: "UniAttribute", Fields: []*rc.Field{{Name: "data", GoName: "Data", Tag: 0, Require: true, Type: mt}}}
+	r.Schema.Structs[TupKey] = st
+	r.Keys = append(r.Keys, TupKey)
+	sort.Strings(r.Keys)
+	if r.Custom == nil {
+		r.Custom = map[string]*Custom{}
+	}
+	r.Custom[TupKey] = &Custom{Decode: func(b []byte) (*rc.SV, error) {
+		u := tup.NewUniAttribute()
+		if err := u.Decode(codec.NewReader(b)); err != nil {
+			return nil, err
+		}
+		var m []rc.KV
+		for k, v := range u.VerifData() {
+			l := make([]any, len(v))
+			for i, x := range v {
+				l[i] = int64(int8(x))
+			}
+			m = append(m, rc.KV{K: k, V: l})
+		}
+		if m == nil {
+			m = []rc.KV{}
+		}
+		return &rc.SV{St: st, Fields: []any{m}}, nil
+	}}
 }
